@@ -99,8 +99,8 @@ def mutations():
         F_(T_(d, "A"), "link")["params"][-1] = param("ks", "[Int!]")
     @m("inherited_param_inner_level_widened_ok")
     def _(d):
-        for tn in ("Base", "Mid", "A", "B"): F_(T_(d, tn), "link")["params"].append(param("ks", "[Int!]!", L([I(1)])))
-        F_(T_(d, "A"), "link")["params"][-1] = param("ks", "[Int]", L([I(1)]))
+        for tn in ("Base", "Mid", "A", "B"): F_(T_(d, tn), "link")["params"].append(param("ws", "[Int!]!", L([I(1)])))
+        F_(T_(d, "A"), "link")["params"][-1] = param("ws", "[Int]", L([I(1)]))
     @m("three_level_interface_chain_ok")
     def _(d):
         low = vtype("Low", "interface", ["Mid", "Base"], copy.deepcopy(T_(d, "Mid")["fields"]) + [field("low", "Int")])
